@@ -438,3 +438,127 @@ Lemma unique_example :
   scheds_legal 4 2 3 [serial_ops 1; serial_ops 0] /\
   unique_par 2 [serial_ops 1; serial_ops 0] [7; 7; 7]%Z = Some [7]%Z.
 Proof. repeat split. Qed.
+
+(* ------------------------------------------------- scans run in place *)
+Section InPlaceFacts.
+  Context {T : Type}.
+  Variable identity : T.
+  Variable f : T -> T -> T.
+  Variable wr : T -> T -> T.
+  Variable m : nat -> T.                      (* the ORIGINAL content of the shared buffer *)
+  Definition emitw (t : T) (i : nat) : option (nat * T) := Some (i, wr t (m i)).
+
+  Lemma scan_range_outside : forall fin idxs t out q, ~ In q idxs ->
+      snd (scan_range f m emitw fin idxs t out) q = out q.
+  Proof.
+    intros fin idxs. induction idxs as [|i r IH]; intros t out q Hq; [reflexivity|].
+    cbn [scan_range]. rewrite IH by (intros H; apply Hq; right; auto).
+    destruct fin; [|reflexivity]. unfold emitw, upd.
+    destruct (Nat.eqb_spec q i) as [->|]; [exfalso; apply Hq; left; auto| reflexivity].
+  Qed.
+
+  (* as long as every index about to be visited still holds its original value,
+     the in-place loop behaves like the out-of-place one *)
+  Lemma ascan_range_sim : forall fin idxs t buf out, NoDup idxs ->
+      (forall p, buf p = out p) -> (forall i, In i idxs -> out i = m i) ->
+      fst (ascan_range f wr fin idxs t buf) = fst (scan_range f m emitw fin idxs t out) /\
+      forall p, snd (ascan_range f wr fin idxs t buf) p = snd (scan_range f m emitw fin idxs t out) p.
+  Proof.
+    intros fin idxs. induction idxs as [|i r IH]; intros t buf out Hnd Hb Hm; [cbn; auto|].
+    inversion Hnd as [|? ? Hni Hnd']; subst. cbn [ascan_range scan_range].
+    assert (Ex : buf i = m i) by (rewrite Hb; apply Hm; left; auto). rewrite Ex.
+    apply IH; auto.
+    - intros p. destruct fin; [|apply Hb]. unfold emitw, upd. destruct (p =? i); auto.
+    - intros j Hj. destruct fin; [|apply Hm; right; auto]. unfold emitw, upd.
+      destruct (Nat.eqb_spec j i) as [->|]; [contradiction| apply Hm; right; auto].
+  Qed.
+
+  Lemma forallb_not_done : forall done lo k,
+      forallb (fun i => negb (existsb (Nat.eqb i) done)) (seq lo k) = true ->
+      forall i, In i (seq lo k) -> ~ In i done.
+  Proof.
+    intros done lo k H i Hi Hd. rewrite forallb_forall in H. specialize (H i Hi).
+    apply negb_true_iff in H. assert (existsb (Nat.eqb i) done = true); [|congruence].
+    apply existsb_exists. exists i. split; auto. apply Nat.eqb_refl.
+  Qed.
+
+  Lemma inplace_sim : forall ops done sums buf out, pbf done ops = true ->
+      (forall p, buf p = out p) -> (forall i, ~ In i done -> out i = m i) ->
+      fst (fold_left (acstep identity f wr) ops (sums, buf)) = fst (fold_left (cstep identity f m emitw) ops (sums, out)) /\
+      forall p, snd (fold_left (acstep identity f wr) ops (sums, buf)) p = snd (fold_left (cstep identity f m emitw) ops (sums, out)) p.
+  Proof.
+    induction ops as [|op ops IH]; intros done sums buf out Hp Hb Hm; [cbn; auto|].
+    cbn [fold_left]. destruct op as [b c|b lo hi|b lo hi|b a|b a]; cbn [pbf acstep cstep] in *.
+    - apply (IH done); auto.
+    - apply andb_true_iff in Hp. destruct Hp as [Hd Hp].
+      pose proof (forallb_not_done _ _ _ Hd) as Hnd.
+      destruct (ascan_range_sim false (seq lo (hi - lo)) (nth b sums identity) buf out (seq_NoDup _ _) Hb
+                  (fun i Hi => Hm i (Hnd i Hi))) as [E1 E2].
+      destruct (ascan_range f wr false (seq lo (hi - lo)) (nth b sums identity) buf) as [sa ba].
+      destruct (scan_range f m emitw false (seq lo (hi - lo)) (nth b sums identity) out) as [s o] eqn:Es.
+      cbn [fst snd] in *. subst sa. apply (IH done); auto.
+      intros i Hi. pose proof (scan_range_outside false (seq lo (hi - lo)) (nth b sums identity) out i) as O.
+      rewrite Es in O. cbn [snd] in O.
+      destruct (in_dec Nat.eq_dec i (seq lo (hi - lo))) as [Hin|Hout]; [|rewrite O; auto].
+      (* a pre-scan writes nothing *)
+      pose proof (scan_range_pre f m emitw (seq lo (hi - lo)) (nth b sums identity) out) as P.
+      rewrite Es in P. injection P as _ ->. auto.
+    - apply andb_true_iff in Hp. destruct Hp as [Hd Hp].
+      pose proof (forallb_not_done _ _ _ Hd) as Hnd.
+      destruct (ascan_range_sim true (seq lo (hi - lo)) (nth b sums identity) buf out (seq_NoDup _ _) Hb
+                  (fun i Hi => Hm i (Hnd i Hi))) as [E1 E2].
+      destruct (ascan_range f wr true (seq lo (hi - lo)) (nth b sums identity) buf) as [sa ba].
+      destruct (scan_range f m emitw true (seq lo (hi - lo)) (nth b sums identity) out) as [s o] eqn:Es.
+      cbn [fst snd] in *. subst sa. apply (IH (seq lo (hi - lo) ++ done)); auto.
+      intros i Hi. pose proof (scan_range_outside true (seq lo (hi - lo)) (nth b sums identity) out i) as O.
+      rewrite Es in O. cbn [snd] in O. rewrite O by (intros H; apply Hi, in_or_app; auto).
+      apply Hm. intros H; apply Hi, in_or_app; auto.
+    - apply (IH done); auto.
+    - apply (IH done); auto.
+  Qed.
+
+  Lemma ascan_par_is_scan_par : forall init ops, pbf [] ops = true ->
+      fst (ascan_par identity f wr init ops m) = fst (scan_par identity f m emitw init ops m) /\
+      forall p, snd (ascan_par identity f wr init ops m) p = snd (scan_par identity f m emitw init ops m) p.
+  Proof.
+    intros init ops Hp. unfold ascan_par, scan_par.
+    destruct (inplace_sim ops [] [init] m m Hp (fun _ => eq_refl) (fun _ _ => eq_refl)) as [E1 E2].
+    destruct (fold_left (acstep identity f wr) ops ([init], m)) as [sa ba].
+    destruct (fold_left (cstep identity f m emitw) ops ([init], m)) as [s o].
+    cbn [fst snd] in *. subst. auto.
+  Qed.
+End InPlaceFacts.
+
+(* exclusive_scan(Par, v, v, init, f, identity) in place = std::exclusive_scan in place *)
+Lemma excl_scan_inplace_correct : forall {T} (identity : T) (f : T -> T -> T),
+    (forall a b c, f (f a b) c = f a (f b c)) -> (forall a, f identity a = a) -> (forall a, f a identity = a) ->
+    forall xs init ops, legal_scan_inplace (length xs) ops = true ->
+      fst (excl_scan_inplace identity f xs init ops) = fold_left f xs init /\
+      forall p, snd (excl_scan_inplace identity f xs init ops) p =
+                if p <? length xs then fold_left f (firstn p xs) init else nth p xs identity.
+Proof.
+  intros T identity f Ha Hl Hr xs init ops HL. unfold legal_scan_inplace in HL. apply andb_true_iff in HL.
+  destruct HL as [HL Hp]. unfold excl_scan_inplace.
+  destruct (ascan_par_is_scan_par identity f (fun temp _ => temp) (fun i => nth i xs identity) init ops Hp) as [E1 E2].
+  destruct (excl_scan_correct identity f Ha Hl Hr xs init ops (fun i => nth i xs identity) HL) as [C1 C2].
+  unfold excl_scan_par in C1, C2. unfold emitw in E1, E2. split.
+  - rewrite E1. exact C1.
+  - intros p. rewrite E2. apply C2.
+Qed.
+
+Lemma incl_scan_inplace_correct : forall xs ops, legal_scan_inplace (length xs) ops = true ->
+    forall p, snd (incl_scan_inplace xs ops) p =
+              if p <? length xs then fold_left Z.add (firstn (S p) xs) 0%Z else nth p xs 0%Z.
+Proof.
+  intros xs ops HL. unfold legal_scan_inplace in HL. apply andb_true_iff in HL. destruct HL as [HL Hp].
+  unfold incl_scan_inplace.
+  destruct (ascan_par_is_scan_par 0%Z Z.add (fun temp x => (temp + x)%Z) (fun i => nth i xs 0%Z) 0%Z ops Hp) as [_ E2].
+  pose proof (incl_scan_correct xs ops (fun i => nth i xs 0%Z) HL) as C. unfold incl_scan_par in C. unfold emitw in E2.
+  intros p. rewrite E2. apply C.
+Qed.
+
+(* reading input[i] after the store (the temporary dropped) is NOT the exclusive scan when run in place *)
+Lemma read_after_write_breaks_inplace :
+  snd (ascan_range_read_after_write Z.add (seq 0 3) 0%Z (fun i => nth i [1; 2; 3]%Z 0%Z)) 2 = 0%Z /\
+  snd (ascan_range Z.add (fun temp _ => temp) true (seq 0 3) 0%Z (fun i => nth i [1; 2; 3]%Z 0%Z)) 2 = 3%Z.
+Proof. split; reflexivity. Qed.
